@@ -73,7 +73,7 @@ type fn struct {
 	mayPanic bool
 	impure   bool // writes globals / referents of its arguments
 	recovers bool
-	tainted  bool // calls, transitively, a function that recovers
+	tainted  bool   // calls, transitively, a function that recovers
 	lines    [2]int // first and last source line, filled after assembly
 }
 
@@ -128,9 +128,9 @@ type loopCtx struct {
 }
 
 type gen struct {
-	r    *rng.R
-	sb   strings.Builder
-	ind  int
+	r   *rng.R
+	sb  strings.Builder
+	ind int
 
 	structs []*structT
 	globals []*vr
@@ -139,20 +139,20 @@ type gen struct {
 	nvar    int
 	lvl     int
 
-	cur      *fn
-	noUnc    bool // current function (and its callees) must not raise uncatchable faults
-	noPanic  bool // nothing that may panic (initialisers, init functions)
-	noHeap   bool // expression leaves restricted to locals and literals (an impure call is present)
-	pureOnly bool // only pure callees (heap reads may be present in the same expression)
-	noCalls  bool
-	hasDefer bool
-	loops    []*loopCtx
-	swDepth  int
-	budget   int // statements left in the current function
+	cur       *fn
+	noUnc     bool // current function (and its callees) must not raise uncatchable faults
+	noPanic   bool // nothing that may panic (initialisers, init functions)
+	noHeap    bool // expression leaves restricted to locals and literals (an impure call is present)
+	pureOnly  bool // only pure callees (heap reads may be present in the same expression)
+	noCalls   bool
+	hasDefer  bool
+	loops     []*loopCtx
+	swDepth   int
+	budget    int // statements left in the current function
 	forceDecl int
 
-	feat     map[string]bool
-	useInl   map[string]bool
+	feat   map[string]bool
+	useInl map[string]bool
 }
 
 func (g *gen) w(f string, a ...any) {
